@@ -128,6 +128,10 @@ class EachScheduling:
     def remove_node(self, node: WorkerController) -> str | None:
         # KeyError if we didn't get an add_node() yet
         pending = self.node2pending.pop(node)
+        if not self.collection_is_completed:
+            # The collection of a node which is gone must not count towards
+            # completeness: its replacement is one of the initial nodes.
+            self.node2collection.pop(node, None)
         if not pending:
             return None
         crashitem = self.node2collection[node][pending.pop(0)]
